@@ -41,7 +41,9 @@ impl Query {
 #[derive(Serialize, Deserialize, Clone, Debug, PartialEq, Eq)]
 pub enum Step {
     Open { doc: usize, text: String },
-    Change { doc: usize, text: String },
+    /// `earlier`: content changes preceding `text` in the same notification (full texts; the protocol applies the
+    /// changes of one notification in order, so the document's text afterwards is `text`)
+    Change { doc: usize, text: String, #[serde(default)] earlier: Vec<String> },
     Close { doc: usize },
     Req { doc: usize, q: Query, line: u32, ch: u32, class: PosClass },
 }
@@ -127,10 +129,14 @@ impl History {
                     method: "textDocument/didOpen".into(),
                     params: json!({"textDocument": {"uri": uri, "languageId": "lelwel", "version": i as i32, "text": text}}),
                 })),
-                Step::Change { text, .. } => out.push(Message::Notification(Notification {
-                    method: "textDocument/didChange".into(),
-                    params: json!({"textDocument": {"uri": uri, "version": i as i32}, "contentChanges": [{"text": text}]}),
-                })),
+                Step::Change { text, earlier, .. } => {
+                    let mut changes: Vec<serde_json::Value> = earlier.iter().map(|t| json!({"text": t})).collect();
+                    changes.push(json!({"text": text}));
+                    out.push(Message::Notification(Notification {
+                        method: "textDocument/didChange".into(),
+                        params: json!({"textDocument": {"uri": uri, "version": i as i32}, "contentChanges": changes}),
+                    }))
+                }
                 Step::Close { .. } => out.push(Message::Notification(Notification {
                     method: "textDocument/didClose".into(),
                     params: json!({"textDocument": {"uri": uri}}),
@@ -511,7 +517,15 @@ pub fn generate(rng: &mut Rng, pool: &TextPool, max_steps: usize) -> History {
                     // (one change in ten re-sends the unchanged text)
                     let t = if rng.chance(1, 10) { text.clone() } else { pick_text(rng, Some(text)) };
                     cur[d] = Some(t.clone());
-                    steps.push(Step::Change { doc: d, text: t });
+                    // one change notification in twelve carries several content changes (full texts): the protocol applies
+                    // them in order, so the last one is the document's text afterwards
+                    let mut earlier = vec![];
+                    if rng.chance(1, 12) {
+                        for _ in 0..1 + rng.below(2) {
+                            earlier.push(pick_text(rng, Some(&t)));
+                        }
+                    }
+                    steps.push(Step::Change { doc: d, text: t, earlier });
                 } else if roll < w_change + w_close {
                     last_text[d] = cur[d].clone();
                     cur[d] = None;
